@@ -150,19 +150,32 @@ Theorem c13_sources_unmodified_shallow_refuted :
 Proof. exact shallow_copy_modifies_source. Qed.
 Print Assumptions c13_sources_unmodified_shallow_refuted.
 
-(* contexts: untouched by anything done with other builders; refuted for a re-used builder (F-CFG-REUSE) *)
-Theorem c13_earlier_context_stable : forall builtin ops p i,
-  (i < length p)%nat -> forallb (fun o => negb (pop_touches i o)) ops = true ->
-  ctx_report (prun builtin ops p) i = ctx_report p i.
+(* contexts: untouched by anything done with other builders (whatever create() does with the configuration) *)
+Theorem c13_earlier_context_stable : forall detach builtin ops p c,
+  ops_spare_ctx p c ops = true ->
+  ctx_report (prun detach builtin ops p) c = ctx_report p c.
 Proof. exact earlier_context_stable. Qed.
 Print Assumptions c13_earlier_context_stable.
 
+(* if create() hands the context its own deep copy: stable under EVERYTHING done later, the same builder included *)
+Theorem c13_context_stable_when_detached : forall builtin ops1 ops2 c,
+  (c < length (p_ctxs (prun true builtin ops1 empty_proc)))%nat ->
+  ctx_report (prun true builtin ops2 (prun true builtin ops1 empty_proc)) c = ctx_report (prun true builtin ops1 empty_proc) c.
+Proof. exact context_stable_when_detached. Qed.
+Print Assumptions c13_context_stable_when_detached.
+
+(* if the context shares the builder's LanguageConfig (pinned tree, F-CFG-REUSE): refuted for a re-used builder *)
 Theorem c13_builder_reuse_refuted :
-  exists builtin ops1 ops2 i,
-    (i < length (prun builtin ops1 []))%nat /\
-    ctx_report (prun builtin ops2 (prun builtin ops1 [])) i <> ctx_report (prun builtin ops1 []) i.
+  exists builtin ops1 ops2 c,
+    (c < length (p_ctxs (prun false builtin ops1 empty_proc)))%nat /\
+    ctx_report (prun false builtin ops2 (prun false builtin ops1 empty_proc)) c <> ctx_report (prun false builtin ops1 empty_proc) c.
 Proof. exact builder_reuse_refuted. Qed.
 Print Assumptions c13_builder_reuse_refuted.
+
+(* which of the two holds of the code as it is NOW: the flag is regenerated from LanguageContextBuilder.create *)
+Theorem c13_context_stability_live : context_stability_statement create_detaches_config.
+Proof. exact (context_stability_all create_detaches_config). Qed.
+Print Assumptions c13_context_stability_live.
 
 (* ---- non-vacuity: the hypotheses are satisfiable and the conclusions discriminate ---------------- *)
 Definition ex_base : cv := Node [([97], Leaf true (AInt 1)); ([98], Leaf false (AInt 2)); ([110], Node [([120], Leaf false (AInt 0))])].
